@@ -427,3 +427,88 @@ func E2(rc *RC, files func(file string) bool, floor int) {
 		}
 	}
 }
+
+// P3map: operand dependence of the hand-written StdEng.Map. The buffer handed to the map
+// kernel must hold the operand's elements: it is the operand's own buffer (unsafe mode), or
+// the destination was created on this path as Clone/Materialize of the operand, or the
+// operand was copied into it. Otherwise the result is f applied to whatever the destination
+// held before.
+func P3map(rc *RC) {
+	rc.S.Declare("P3", "operand dependence: on every path of StdEng.Map the buffer given to the map kernel holds the operand's elements (own buffer, clone/materialisation of the operand, or a preceding copy)", 1)
+	key := "tensor.(StdEng).Map"
+	fi := anchor(rc, "P3", key)
+	if fi == nil {
+		return
+	}
+	pos := rc.P.Pos(fi.Decl.Pos())
+	_, tree := sCanon(rc, fi)
+	paths, ok := ir.EnumPaths(tree, 20000)
+	if !ok {
+		rc.S.Undec("P3", key, pos, "too many paths")
+		return
+	}
+	var bad []string
+	n := 0
+	for _, p := range paths {
+		kernel := -1
+		for i, st := range p.Steps {
+			if strings.Contains(st.Head, "$r.E.Map(") || strings.Contains(st.Head, "$r.E.MapIter(") {
+				kernel = i
+			}
+		}
+		if kernel < 0 {
+			continue
+		}
+		// infeasible combinations of the three option switches are skipped
+		f := pathG(p)
+		if ir.Implies(f, ir.BConst(false)) {
+			continue
+		}
+		// an operand that is not a View is not a dense tensor (sparse): outside the properties
+		notDense := false
+		for _, g := range p.Guards {
+			if g == "!%ok" {
+				notDense = true
+			}
+		}
+		if notDense {
+			continue
+		}
+		n++
+		used := ""
+		holds := false
+		for _, st := range p.Steps[:kernel] {
+			if st.Kind == "let" && st.Target == "%used" {
+				used = st.Value
+			}
+			if st.Kind == "let" && st.Target == "%reuse" && (strings.Contains(st.Value, ".Materialize()") || strings.Contains(st.Value, ".Clone()")) && (strings.HasPrefix(st.Value, "%v.") || strings.HasPrefix(st.Value, "$a.")) {
+				holds = true
+			}
+			if strings.Contains(st.Head, "storage.Copy(") || strings.Contains(st.Head, "copyDense(%reuse, $a") || strings.Contains(st.Head, "storage.CopyIter(") {
+				holds = true
+			}
+		}
+		switch {
+		case used == "%dataA":
+		case used == "%dataReuse" && holds:
+		case used == "":
+			bad = append(bad, "the buffer given to the kernel is not one of dataA/dataReuse")
+		default:
+			bad = append(bad, fmt.Sprintf("on [%s] the kernel maps over the destination's previous contents: the operand was never copied into it", strings.Join(p.Guards, " && ")))
+		}
+	}
+	if n == 0 {
+		bad = append(bad, "no path reaches the map kernel")
+	}
+	if len(bad) > 0 {
+		sort.Strings(bad)
+		bad = uniq(bad)
+		o := rc.S.Viol("P3", key, pos, bad[0])
+		if len(bad) > 1 {
+			o.Detail += fmt.Sprintf(" … and %d more paths", len(bad)-1)
+		}
+		o.Sig = fmt.Sprintf("%d of %d kernel paths", len(bad), n)
+	} else {
+		rc.S.Ok("P3", key, pos, fmt.Sprintf("%d kernel paths, all over the operand's elements", n))
+	}
+}
